@@ -186,6 +186,25 @@ func runC12(e *Engine, r *Report, tier string) {
 	r.Rule("R2", "method tags pairwise distinct", 1, "")
 	r.Rule("R3", "confirm handlers + signature validation guards", 12, "3 handlers + validation routine")
 	r.Rule("R4", "MsgConfirm signer = wrapped bridger", 1, "")
+	r.Rule("R7", "the checkpoint is computed from chain state only: the gravity id, oracle records and stored objects that feed it are read from the store, never from a process-local cell that a discarded execution (failed proposal, simulation, CheckTx) can leave changed (C17.R5 for the bridge modules)", 1, "C17 obligations in x/crosschain and x/tron")
+	{
+		sub17 := NewReport("C17", "other")
+		runC17(e, sub17, tier)
+		for _, o := range sub17.Obls {
+			if o.Rule != "R5" {
+				continue
+			}
+			if o.Status == OK && o.Construct == "scope" {
+				r.add("R7", "C17.R5 "+o.Construct, o.Status, o.Pos, o.Detail)
+			} else if strings.Contains(o.Construct, "x/crosschain") || strings.Contains(o.Construct, "x/tron") {
+				d := o.Detail
+				if o.Status != OK {
+					d += " — here: a confirmation would be verified against a checkpoint built from that cell (e.g. a memoised gravity id) instead of the stored parameters, so signatures for another domain are accepted and valid ones refused"
+				}
+				r.add("R7", "C17.R5 "+o.Construct, o.Status, o.Pos, d)
+			}
+		}
+	}
 	r.Rule("R6", "an object's nonce is never handed out twice: genesis import restores a single-valued counter (latest oracle-set nonce, …) as the maximum over the imported objects, not as the value of whichever comes last", 1, "writes of single-key families in genesis import")
 	e.genesisCountersAreMax(r, "R6")
 	// the confirming oracle is resolved from the submitting bridger through the bridger index (0x14): that index must agree
